@@ -10,7 +10,7 @@ import (
 
 func init() {
 	register("C07", "other", "T2 Dominates (deferred drop before indexing), T4 GuardedBy + T6 WhoMayCall (flush only after both steps succeeded), T6 effects reachable from Build, T7 Pairing (drop clears everything the add filled), T21 (shared)",
-		"Decides the structure that makes a built or rejected event leave no trace: in IndexedLachesis.Build and Process the deferred DropNotFlushed is registered before the event is added to the index; the index is flushed only in Process and only after both indexing and the consensus step returned nil; nothing reachable from Build writes a consensus-store table (its only store effects go through the index's droppable overlay); in the consensus step every error return precedes root registration and the election runs only after the event was accepted; dropping resets the branch info, drops the overlay and purges every cache the add could have filled with the dropped event's data, and temporary IDs cannot alias (C04.tmpid). Behavioural equivalence with 'never submitted' is not decided beyond these effects.",
+		"Decides the structure that makes a built or rejected event leave no trace: in IndexedLachesis.Build and Process the deferred DropNotFlushed is registered before the event is added to the index; the index is flushed only in Process and only after both indexing and the consensus step returned nil; nothing reachable from Build writes a consensus-store table (its only store effects go through the index's droppable overlay), and no abft function reachable from Build assigns a field of an outliving object that a function reachable from Process or Build reads, except the temporary-ID counter and the store's read-through caches (C07.build-state: no memo of built events); in the consensus step every error return precedes root registration and the election runs only after the event was accepted; dropping resets the branch info, drops the overlay and purges every cache the add could have filled with the dropped event's data, and temporary IDs cannot alias (C04.tmpid). Behavioural equivalence with 'never submitted' is not decided beyond these effects.",
 		[]string{"the index's overlay is a correct flushable store (C22)", "application callbacks are opaque"},
 		runC07)
 }
@@ -98,6 +98,8 @@ func runC07(c *core.Ctx) {
 		ok := len(adds) == 1 && len(inner) == 1 && afterSuccess(build, adds[0], inner[0].Pt)
 		c.Check(ok, "frame is computed only after indexing succeeded", "T2+T4", build.Pos(), "Orderer.Build runs on the nil edge of dagIndexer.Add", "the frame can be computed for an event that could not be indexed")
 	})
+
+	c.Clause("C07.build-state", func() { c07BuildState(c) })
 
 	c.Clause("C07.order", func() {
 		chk := c.Fn(ordT + ".checkAndSaveEvent")
